@@ -96,6 +96,20 @@ def ref_positions(geo, n, seed):
     return collinear_points(n, DIRS[geo])
 
 
+def collapse_first_neighbour(pos, fn):
+    """A copy of pos in which the LOWEST-numbered bonded atom of one anchor sits exactly on that anchor ("second frame
+    point = first frame point": a particle resting on its parent atom), or None where no anchor has a lowest
+    neighbour that is no anchor itself.  Such a neighbour is bonded to this anchor only, so no other frame sees it;
+    an anchor coinciding with its SECOND frame neighbour is not produced (that frame has no first axis: outside what
+    C17 promises)."""
+    cand = [a for a in sorted(fn) if fn[a][0] not in fn]
+    if not cand:
+        return None
+    out = np.array(pos, dtype=float).copy()
+    out[fn[cand[0]][0]] = out[cand[0]]
+    return out
+
+
 def sin_angle(pos, a, nb):
     u = pos[nb[1]] - pos[a]
     v = pos[nb[0]] - pos[a]
